@@ -3,7 +3,7 @@ import re
 
 from analysis.facts import callee, callee_short
 from analysis.cfg import cfg
-from analysis.guards import resolve_cond
+from analysis.guards import resolve_cond, GuardFlow
 from analysis.defuse import Tracer
 
 INT_TYPES = ('i32',)
@@ -359,6 +359,32 @@ def run(chk, prog):
             'the downcast to Tag is dominated by the is::<Tag>() test',
             'pop_choice_string_and_tags downcasts a popped value to Tag without the is::<Tag>() test before it',
             pct.loc(dc[0]) if dc else pct.loc(0))
+
+    # ---------------------------------------------------------------- G
+    RG = 'C04.safe-exit-flag-is-fresh'
+    chk.rule(RG, 'The flag that suppresses the "ran out of content" diagnosis (StoryState::did_safe_exit) is false when a '
+             'continue starts: in continue_internal every path that begins a new continue (async_continue_active false at '
+             'entry) passes set_did_safe_exit(false) before the flag is read at the end. force_end() sets it also outside any '
+             'continue (reset_callstack on a host path jump), so a stale true would swallow the fault of the next continue.')
+    ci_ = prog.fn('Story::continue_internal')
+    if chk.anchor(RG, 'Story::continue_internal', ci_):
+        def atom_a(desc):
+            return 'async' if desc == ('field', 'Story::async_continue_active') else None
+        gfa_ = GuardFlow(prog, ci_, atom_a, tracer=tr, assume={'async': False})
+        gfa_.run()
+        reads_ = [bb for bb, t in ci_.calls() if callee_short(t) == 'StoryState::is_did_safe_exit'] + \
+                 [bb for bb, si, s_ in ci_.stmts() if s_['k'] == 'assign' and any(
+                     pe.get('n') == 'did_safe_exit' for pe in (s_['rv'].get('pl') or {}).get('p', []))]
+        resets_ = [bb for bb, t in ci_.calls() if callee_short(t) == 'StoryState::set_did_safe_exit'
+                   and len(t['args']) > 1 and t['args'][1].get('bool') is False]
+        if chk.anchor(RG, 'read of did_safe_exit in continue_internal', reads_):
+            w = gfa_.feasible_path([0], lambda b: b in reads_, avoid=resets_) if 0 not in resets_ else None
+            chk.decide(RG, chk.key(RG, 'reset-before-read'), bool(resets_) and w is None,
+                       'a new continue clears the flag before it is read',
+                       'continue_internal can read did_safe_exit at the end of a newly started continue without having '
+                       'cleared it: a flag left true by force_end() outside a continue (reset_callstack during '
+                       'choose_path_string) suppresses the "ran out of content" error of that continue',
+                       ci_.loc(reads_[0]), {'witness_blocks': w})
 
     # ---------------------------------------------------------------- B
     ci = prog.fn('Story::continue_internal')
